@@ -500,7 +500,14 @@ def run_shard(ctx, shard):
                 laws_pair(ctx, rep, xn, x, yn, y, cid)
     elif kind == 'triples':
         _, _, k, K = shard
-        for i, ((xn, x), (yn, y), (zn, z)) in enumerate(itertools.product(G, G, G)):
+        GZ = G
+        if len(G) > 40:
+            # thorough tier of the large generator sets (~100 letters): x and y range over all of them, z over a landmark-preserving
+            # subset of 24 plus every letter of the quick tier (so that the quick enumeration stays a subset)
+            qn = {n for n, _ in Rep(c, 'quick', ctx.seed).gens}
+            zs = {n for n, _ in alph.subset(G, 24, 6)} | qn
+            GZ = [g for g in G if g[0] in zs]
+        for i, ((xn, x), (yn, y), (zn, z)) in enumerate(itertools.product(G, G, GZ)):
             if i % K != k:
                 continue
             cid = 'C02/%s/triple/x=%s/y=%s/z=%s' % (c, xn, yn, zn)
@@ -612,8 +619,8 @@ def bfs(ctx, rep, k, K):
                 for gn, gv in gsub[:3]:
                     laws_pair(ctx, rep, name, v, gn, gv, cid, extra={'law_at': 'bfs'})
                     laws_triple(ctx, rep, name, v, gn, gv, gsub[1][0], gsub[1][1], cid)
-                if d + 1 < depth:
-                    nxt.append((name, v))
+                if d + 1 < depth and (d == 0 or alph.thin(name, 'quick', 8, 8)):
+                    nxt.append((name, v))           # the third level (thorough) is entered from one in eight of the second-level states
         frontier = nxt
     ctx.count('states', len(seen))
     ctx.count('transitions', ntrans)
